@@ -35,7 +35,9 @@ pub fn case_rng(seed: u64, prop: &str, op_ix: usize, index: u64) -> Rng {
 }
 
 pub fn make_case(seed: u64, prop: &str, op: &str, index: u64) -> (CaseSpec, Chooser) {
-    let (base, off) = if let Some(b) = op.strip_suffix("+deep") {
+    let (base, off) = if let Some(b) = op.strip_suffix("+huge") {
+        (b, 300)
+    } else if let Some(b) = op.strip_suffix("+deep") {
         (b, 100)
     } else if let Some(b) = op.strip_suffix("+wide") {
         (b, 200)
@@ -200,6 +202,19 @@ pub fn run(o: &Opts, rep: &mut Report) {
                             }
                             digest(&mut rep, &prop, &deep_op, &id, &spec, &r, &known, false);
                             i += nthreads as u64;
+                        }
+                    }
+                    if *op == "merge" && t == 0 && matches!(prop.as_str(), "C01" | "C02" | "C03" | "C04" | "C05") {
+                        // one merge! of more than 65 536 members per run (four in the thorough tier):
+                        // whatever counts members, greetings or completions in 16 bits wraps here
+                        for i in 0..(if thorough { 4u64 } else { 1 }) {
+                            let (spec, mut c) = make_case(seed, &prop, "merge+huge", i);
+                            let r = run_case(&spec, &mut c, &which);
+                            let id = format!("E1:{}:{}:merge+huge:{}", prop, seed, i);
+                            for (k, v) in r.exercised.iter() {
+                                *rep.exercised.entry(k.to_string()).or_insert(0) += *v;
+                            }
+                            digest(&mut rep, &prop, "merge+huge", &id, &spec, &r, &known, false);
                         }
                     }
                     if *op != "tree" {
@@ -391,7 +406,7 @@ pub struct Witness {
 }
 
 fn pspec(mode: Mode, fin: Fin) -> PuppetSpec {
-    PuppetSpec { mode, late: false, fin, burst: 0, eager_end: false, per_pull: 1, on_stop: None, feedback: None }
+    PuppetSpec { mode, late: false, fin, burst: 0, eager_end: false, per_pull: 1, on_stop: None, feedback: None, on_pull: None }
 }
 
 fn base_spec(topo: Topo, pspecs: Vec<PuppetSpec>, lens: Vec<usize>, probe_specs: Vec<ProbeSpec>) -> CaseSpec {
